@@ -4,8 +4,11 @@
 
 pub mod c09;
 pub mod c13;
+pub mod c13s;
 pub mod c15;
 pub mod c16;
+pub mod pty;
+pub mod serial;
 
 use std::time::Duration;
 
